@@ -41,11 +41,14 @@ def balanceRows (m : HashMap Bytes Unspent) : List String :=
 
 /-- opreturn.rs -/
 def opreturnLines (ver : UInt8) (bs : List EBlock) : List String :=
-  bs.flatMap fun b => b.blk.txs.flatMap fun t => t.outs.filterMap fun o =>
+  bs.flatMap fun b => b.blk.txs.flatMap fun t =>
+    -- the transaction's id is computed once per transaction, not once per line (a transaction may carry thousands of OP_RETURN outputs)
+    let id := hashHex (txid t)
+    t.outs.filterMap fun o =>
     match (S.eval ver o.script).pattern with
     | .opReturn p => if p.isEmpty then none else
         let hs := toString b.height
-        some s!"height: {hs}{String.ofList (List.replicate (9 - hs.length) ' ')} txid: {hashHex (txid t)}    data: {Sha.hex p}"
+        some s!"height: {hs}{String.ofList (List.replicate (9 - hs.length) ' ')} txid: {id}    data: {Sha.hex p}"
     | _ => none
 
 /-- simplestats.rs accumulators (integers only) -/
